@@ -235,6 +235,36 @@ ADDED = {
     'C19': ' Added: two rounds of requests on a system, its copy and its subgraphs; extra atoms on residues no request names; mutation plus '
            'terminus modification on one residue; two modification requests on one residue.',
 }
+# layers added in the third phase (program wiring, whole-object state, more input classes)
+ADDED2 = {
+    'C01': ' Further: a modification mapping with a context atom in the next residue; one mapping collection over sequences of molecules; '
+           'block and kept attributes; the martinize2 topology layer (props/cli_topology.py: chains x chain order x numbering x -sep / -merge / '
+           '-resid input / -elastic).',
+    'C02': ' Further: named and deduplicated systems (layer shared with C03); the martinize2 topology layer (record k of the coordinate file = '
+           'atom k of the ITP its type name points at, residue number included).',
+    'C03': ' Further: the martinize2 topology layer incl. residue numbers, chain order and -resid input.',
+    'C04': ' Further: systems of known and unknown molecules through RepairGraph(delete_unknown=True).run_system.',
+    'C05': ' Further: one force field and one DoLinks instance over sequences of molecules; side-chain-less residues; non-edge partners that '
+           're-specify a header attribute; a vacuity guard (every link of the grammar fits somewhere).',
+    'C07': ' Further: the abstract state holds every instance attribute of the writer; exploration also starts after a discarded / finalised attempt.',
+    'C08': ' Further: records logged through the typed adapter without a type; case-sensitive type names in the parser alphabet.',
+    'C09': ' Further: positions written by martinize2 (inner residues, shipped mapping files read with an own parser, element masses; also with '
+           'debug dumps taken before the mapping); new-style mapping text with explicit weights 0 / 2 / 3.',
+    'C10': ' Further: martinize2 -bonds-from / -bonds-fudge through -write-graph.',
+    'C11': ' Further: an input with alternate conformations A/B in either order.',
+    'C12': ' Further: System.copy; subgraph with repeated keys; every instance attribute and the sharing between copy and source in the abstract state.',
+    'C13': ' Further: contradiction faults with every other explicit order on an atom mentioned once; a .mapping with extra nodes, two identifiers '
+           'and bare names.',
+    'C14': ' Further: unexplained atoms named like template atoms; two requests on one residue through the pipeline.',
+    'C15': ' Further: martinize2 elastic-network options (props/c15_cli.py), incl. merged chains and residues told apart by insertion codes.',
+    'C16': ' Further: atom ids numbered from 0; every combination of the switches of write_pdb.',
+    'C17': ' Further: martinize2 -ss (metamorphic relations between equivalent sequences, refusal of other lengths); the DSSP route with mdtraj '
+           'under within-sequence atom orders.',
+    'C18': ' Further: martinize2 -go (props/c18_cli.py): generated contact-map files and the internally computed map, cut-offs incl. zeros, two '
+           'chains; a molecule name that is a prefix of a bead type in the quick tier.',
+    'C19': ' Further: one AnnotateMutMod instance over two systems; martinize2 -mutate / -nter / -cter / -nt on 1-3 chains (props/c19_cli.py).',
+}
+
 NOTES = {
     'C01': 'Residues have 2-3 atoms; modification mappings are single-residue in C01 (two-residue ones are exercised in C09).',
 }
@@ -249,7 +279,7 @@ def main():
             not_applicable.append({'property_id': pid, 'reason': NOT_YET})
             continue
         engine, technique, category, text, note, ref = CHECKS[pid]
-        text += ADDED.get(pid, '')
+        text += ADDED.get(pid, '') + ADDED2.get(pid, '')
         note = NOTES.get(pid, note)
         checks.append({
             'property_id': pid,
